@@ -210,6 +210,12 @@ def run(ctx):
             dst = [defect(x) for b in st.body for x in ast.walk(b) if defect(x)]
             if len(src_) == 1 and len(dst) == 1:
                 mirror[src_[0]] = dst[0]
+                # flags combine freely: every test must be independent of the others
+                ctx.ob("R2.mirror-tests-independent", ANN, "AnnotatedSequence.reverse_complement",
+                       f"test of {src_[0]} has no else/elif", not st.orelse,
+                       f"the test of {src_[0]} is chained with else/elif to another defect test: a location "
+                       "carrying both defects loses one of them (reverse complement twice no longer "
+                       "restores the original)", st.lineno)
     for m in members:
         ctx.ob("R2.defect-mirrored", ANN, "AnnotatedSequence.reverse_complement", f"{m} -> {mirror.get(m)}",
                m in mirror, f"defect {m} is dropped by reverse_complement", rc.lineno)
@@ -373,6 +379,8 @@ MUTANTS = [
            "self._annotation.copy(), self._sequence.copy, self._seqstart", "R3.method-value"),
     Mutant("mirror-miss-left", ANN, "                    rev_loc_defect |= Location.Defect.MISS_RIGHT\n", "                    rev_loc_defect |= Location.Defect.MISS_LEFT\n",
            "R2.mirror-involution"),
+    Mutant("mirror-elif", ANN, "                if loc.defect & Location.Defect.MISS_RIGHT:\n                    rev_loc_defect |= Location.Defect.MISS_LEFT",
+           "                elif loc.defect & Location.Defect.MISS_RIGHT:\n                    rev_loc_defect |= Location.Defect.MISS_LEFT", "R2.mirror-tests-independent"),
     Mutant("mirror-drops-between", ANN, "                if loc.defect & Location.Defect.BETWEEN:\n                    rev_loc_defect |= Location.Defect.BETWEEN\n", "",
            "R2.defect-mirrored"),
     Mutant("clip-le", ANN, "                        if loc.first < i_first:", "                        if loc.first <= i_first:", "R2.clip-left"),
